@@ -10,7 +10,7 @@ def crash_violation(case, res, mode):
 
 
 def is_harness_limit(res):
-    return res.status in ("unsupported", "mismatch", "pending", "after_end")
+    return res.status in ("unsupported", "mismatch", "pending", "after_end", "bypassed", "runaway")
 
 
 def fired_stats(res, stats):
